@@ -96,6 +96,8 @@ pub enum Effect {
     Short,
     /// write the first half, then fail the *next* call of the same kind with errno
     PartialThenErr(i32),
+    /// the call succeeds but takes this many simulated milliseconds (slow disk)
+    Delay(u32),
 }
 
 #[derive(Clone, Debug, PartialEq, Eq, Serialize, Deserialize)]
@@ -147,6 +149,7 @@ pub struct Th {
     pub name: String,
     pub is_worker: bool,
     pub os_id: Option<std::thread::ThreadId>,
+    pub pthread: Option<libc::pthread_t>,
 }
 
 pub struct FdInfo {
@@ -480,7 +483,7 @@ fn spawn_slot(name_hint: Option<String>, is_worker: bool) -> u64 {
             format!("W{n}")
         }
     };
-    st.threads.push(Th { alive: true, parked: false, idle_epoch: None, name, is_worker, os_id: None });
+    st.threads.push(Th { alive: true, parked: false, idle_epoch: None, name, is_worker, os_id: None, pthread: None });
     id as u64
 }
 
@@ -506,6 +509,7 @@ fn thread_enter_impl(child: u64) {
     let mut st = lock();
     st.trace.push(Ev::H(HEv::ThreadEnter(me as u8)));
     st.threads[me].os_id = Some(std::thread::current().id());
+    st.threads[me].pthread = Some(unsafe { libc::pthread_self() });
     st.threads[me].parked = true;
     s.cv.notify_all();
     while st.current != me {
@@ -541,25 +545,6 @@ impl raft_log::verif_hooks::Hooks for H {
     fn blocked(&self, site: &'static str) {
         sim().blocked(site);
     }
-    fn join_wait(&self, thread: std::thread::ThreadId) {
-        // deterministic: depends only on simulated state (the joined thread's exit), never on
-        // when the OS thread really terminates
-        loop {
-            {
-                let st = lock();
-                if !st.active {
-                    return;
-                }
-                match st.threads.iter().find(|t| t.os_id == Some(thread)) {
-                    Some(t) if t.alive => {}
-                    _ => return,
-                }
-            }
-            // the joiner has just closed the request channel: progress the worker must see
-            sim().progress();
-            sim().blocked("join_worker");
-        }
-    }
     fn spawn_begin(&self) -> u64 {
         spawn_slot(None, true)
     }
@@ -580,6 +565,26 @@ impl raft_log::verif_hooks::Hooks for H {
             }
         }
         default
+    }
+}
+
+/// Called by the interposed `pthread_join`: wait, in simulated time, until the simulated thread
+/// with this pthread id has exited. Deterministic: depends only on simulated state.
+pub fn join_wait_pthread(t: libc::pthread_t) {
+    loop {
+        {
+            let st = lock();
+            if !st.active {
+                return;
+            }
+            // pthread ids are reused once a thread is gone: only a live simulated thread counts
+            if !st.threads.iter().any(|th| th.alive && th.pthread == Some(t)) {
+                return;
+            }
+        }
+        // whoever joins has usually just closed a channel: progress the joined thread must see
+        sim().progress();
+        sim().blocked("pthread_join");
     }
 }
 
@@ -644,7 +649,7 @@ pub fn begin(cfg: EpisodeCfg) {
     st.chooser = cfg.chooser;
     st.faults = cfg.faults;
     st.flush_batch = cfg.flush_batch;
-    st.threads.push(Th { alive: true, parked: false, idle_epoch: None, name: "T0".into(), is_worker: false, os_id: None });
+    st.threads.push(Th { alive: true, parked: false, idle_epoch: None, name: "T0".into(), is_worker: false, os_id: None, pthread: None });
     st.current = 0;
     drop(st);
     TID.with(|t| t.set(Some(0)));
